@@ -19,12 +19,15 @@ func execOrthoRouting(g *graph.DGraph, routes []routableEdge, params graph.Param
 
 		for i := 1; i < len(r.ns); i++ {
 			sp := startPoint(r.ns[i-1])
-			// virtual nodes have 0 size; another solution here is to consider the layer Y instead of the node Y
+			// the elbow is halfway between the bottom of this node's layer and the top of the next layer;
+			// the node itself may be shorter than its layer
+			layerBottom := r.ns[i-1].Y + g.Layers[r.ns[i-1].Layer].H
+			// virtual nodes have 0 size: leave from the bottom of their layer
 			if r.ns[i-1].IsVirtual {
-				sp[1] += layerh
+				sp[1] = layerBottom
 			}
 			r.Points = append(r.Points, sp)
-			r.Points = append(r.Points, [2]float64{sp[0], sp[1] + halfLayerSpacing})
+			r.Points = append(r.Points, [2]float64{sp[0], layerBottom + halfLayerSpacing})
 
 			ep := endPoint(r.ns[i])
 			r.Points = append(r.Points, [2]float64{ep[0], ep[1] - halfLayerSpacing})
